@@ -184,6 +184,7 @@ type H struct {
 	vseen    map[string]bool
 	Final    bool // the scenario reached its final quiescence with every gate open and the worker running
 	NoMon    bool
+	opened   map[int]bool // gates opened by an enumeration step
 	NoRest   bool
 	Purges   []*Ctl
 	Adapters []*Adapter
@@ -203,7 +204,7 @@ type Quiet struct {
 
 func NewH() *H {
 	h := &H{jobByTag: map[int]*JobRec{}, gates: map[int]chan struct{}{}, Beh: map[int]int{}, curAdd: map[int]int{}, Marks: map[string]int{},
-		vseen: map[string]bool{}, inCall: map[int]string{}, hist: 1469598103934665603, Shape: Yielding, CrashProp: "C03", HangProp: "C03"}
+		vseen: map[string]bool{}, opened: map[int]bool{}, inCall: map[int]string{}, hist: 1469598103934665603, Shape: Yielding, CrashProp: "C03", HangProp: "C03"}
 	return h
 }
 
